@@ -15,6 +15,7 @@ Tie, two lines, both against an ASan+UBSan build of /repo's CURRENT tree:
 import json
 import os
 import re
+import resource
 import shutil
 import struct
 import subprocess
@@ -314,6 +315,9 @@ def parse_harness(out, errdir_prefix):
                 ending = "EMissingArg"
             elif st == 1 and "unknown event has data" in err:
                 ending = "EUnknownEvent"
+            elif ended == "runaway":
+                ending = "ECrash"
+                flags.append("the reader returned more records than the file can hold (it does not advance: hang)")
             elif "ASSERT" in err:
                 ending = "EAssert"
             else:
@@ -418,17 +422,24 @@ def defect(ctx, key, what, replay):
 
 def stream_tie(ctx, objdir, harness):
     rng = ctx.rng
-    cases = []
-    ncase = ctx.n(14, 120)
+    todo = []
+    ncase = ctx.n(12, 120)
     for i in range(ncase):
         small = i % 3 != 2
         case = gen_case(rng, rng.randrange(3, 9) if small else rng.randrange(6, 14), small=small)
         spans, size = record_spans(case)
-        cuts = pick_cuts(rng, case, size, ctx.n(330, 700))
+        todo.append((i, case, size, pick_cuts(rng, case, size, ctx.n(330, 700))))
+
+    def one(t):
+        i, case, size, cuts = t
         full, res = run_stream_case(harness, os.path.join(ctx.scratch, "s%d" % i), case, cuts)
         assert len(full) == size, "encoder/offset mismatch"
-        cases.append((case, full, res))
-    verdict_stream(ctx, cases)
+        return (case, full, res)
+    with ThreadPoolExecutor(8) as ex:
+        cases = list(ex.map(one, todo))
+    # evaluate in chunks (keeps each cases file of moderate size)
+    for k in range(0, len(cases), 40):
+        verdict_stream(ctx, cases[k:k + 40], "stream%d" % (k // 40))
     return cases
 
 
@@ -518,13 +529,21 @@ def run_cmds(uft, root, files, env=None):
         with open(os.path.join(d, name), "wb") as f:
             f.write(b)
     res = {}
+
+    def limit():        # a command that prints for ever is stopped by SIGXFSZ instead of filling memory or the disk
+        resource.setrlimit(resource.RLIMIT_FSIZE, (4 << 20, 4 << 20))
     for c in CMDS:
+        so, se = os.path.join(root, "out." + c), os.path.join(root, "err." + c)
         try:
-            p = subprocess.run(["timeout", "-s", "KILL", "20", uft, c, "--no-pager", "-d", "d"], cwd=root, capture_output=True,
-                               env=dict(os.environ, **SAN_ENV), timeout=40)
-            res[c] = (p.returncode, canon_out(p.stdout.decode(errors="replace")), p.stderr.decode(errors="replace"))
+            with open(so, "wb") as fo, open(se, "wb") as fe:
+                p = subprocess.run(["timeout", "-s", "KILL", "10", uft, c, "--no-pager", "-d", "d"], cwd=root, stdout=fo, stderr=fe,
+                                   env=dict(os.environ, **SAN_ENV), timeout=30, preexec_fn=limit)
+            rc = p.returncode
         except subprocess.TimeoutExpired:
-            res[c] = (124, "", "timeout")
+            rc = 124
+        out = open(so, "rb").read(1 << 20).decode(errors="replace")
+        err = open(se, "rb").read(1 << 20).decode(errors="replace")
+        res[c] = (rc, canon_out(out), err)
     shutil.rmtree(root, ignore_errors=True)
     return res
 
@@ -579,24 +598,37 @@ def e2e(ctx, objdir):
         aborts = set(coq.parse_nat_list(r["abort"]))
         jobs = []
         for fname, content in files.items():
-            if fname == "100.dat" or len(content) <= ctx.n(420, 2000):
+            if fname == "100.dat" or (ctx.thorough() and len(content) <= 2000):
                 cuts = list(range(len(content) + 1))
             else:
-                cuts = sorted(set(rng.randrange(len(content) + 1) for _ in range(200)) | {0, len(content)})
-            if not ctx.thorough() and fname != "100.dat" and di == 0:
-                pass
+                # quick tier, text files: every position next to a token separator (all line boundaries +-1, after
+                # `:` `=` blank and quote) and every 3rd byte of the rest; the 40-byte binary header of info completely
+                cs = {0, len(content)} | set(range(0, len(content) + 1, 3))
+                for i, ch in enumerate(content):
+                    if ch in b":= \n\"" or (fname == "info" and i < 41):
+                        cs |= {i, i + 1, min(i + 2, len(content))}
+                if len(content) > 2000:
+                    cs = set(x for x in cs if x < 400 or x > len(content) - 400) | set(rng.randrange(len(content) + 1) for _ in range(150))
+                cuts = sorted(cs)
             jobs += [(fname, n) for n in cuts]
             jobs.append((fname, -1))          # the file is missing
         canon_needed = sorted(set(whole[n] for _, n in [j for j in jobs if j[0] == "100.dat" and j[1] >= 0]) | {1})
 
+        hung = []
+
         def run_job(job):
             fname, n = job
+            if len(hung) >= 3:          # a hanging command is reported by the first cuts; do not wait 20 s for each of the rest
+                return job, None
             fs = dict(files)
             if n < 0:
                 del fs[fname]
             else:
                 fs[fname] = files[fname][:n]
-            return job, run_cmds(uft, os.path.join(root, "j-%s-%d" % (fname.replace("/", "_"), n)), fs)
+            r_ = run_cmds(uft, os.path.join(root, "j-%s-%d" % (fname.replace("/", "_"), n)), fs)
+            if any(v[0] in (124, 137) for v in r_.values()):
+                hung.append(job)
+            return job, r_
 
         def run_canon(n):
             fs = dict(files)
@@ -609,6 +641,8 @@ def e2e(ctx, objdir):
         spans, _ = record_spans(case)
         partial_accepted = 0
         for (fname, n), res in results:
+            if res is None:
+                continue
             content = b"" if n < 0 else files[fname][:n]
             tags = ["e2e:file=" + ("dat" if fname.endswith(".dat") else "sym" if fname.endswith(".sym") else
                                    "map" if fname.endswith(".map") else fname)]
@@ -635,9 +669,9 @@ def e2e(ctx, objdir):
                 if "runtime error:" in err and benign_ubsan(err):
                     ctx.tag("e2e:ubsan-nonnull-on-empty-table")
                 if rc == 124 or rc == 137:
-                    ctx.violation("uftrace %s did not terminate within 20 s on a directory whose %s is cut at byte %d" % (c, fname, n), rep, True)
+                    ctx.violation("uftrace %s did not terminate within 10 s on a directory whose %s is cut at byte %d" % (c, fname, n), rep, True)
                     continue
-                if rc < 0 or 128 < rc < 160:
+                if rc < 0 or 128 < rc < 160 or rc == 153:
                     ctx.violation("uftrace %s was killed by a signal (rc=%d) on a directory whose %s is cut at byte %d" % (c, rc, fname, n), rep, True)
                     continue
                 if san:
